@@ -40,7 +40,8 @@ def regenerate():
     tmp = os.path.join(BUILD, "gen.new")
     shutil.rmtree(tmp, ignore_errors=True)
     os.makedirs(tmp)
-    rc, out = sh([exe, "-repo", REPO, "-out", tmp], cwd=REPO, env=GOENV)
+    rc, out = sh([exe, "-repo", REPO, "-out", tmp, "-harness-enums", os.path.join(HARNESS, "cmd", "hx", "zz_enums_gen.go")],
+                 cwd=REPO, env=GOENV)
     if rc != 0:
         return False, "extractor failed on /repo (an anchor it needs is missing or changed shape):\n" + out
     gen = os.path.join(LEAN, "Mav", "Gen")
@@ -135,7 +136,7 @@ def driver_exe():
     return os.path.join(LEAN, ".lake", "build", "bin", "mavdrv")
 
 
-def run_group(group, n, seed, tier, replay_file=None):
+def run_group(group, n, seed, tier, replay_file=None, preamble=None):
     """Run the harness (implementation) and the driver (model/spec) on the same op lines.
     Returns list of (op, impl, model, spec_or_None), stats dict, error text."""
     exe = os.path.join(BUILD, "hx")
@@ -149,13 +150,18 @@ def run_group(group, n, seed, tier, replay_file=None):
         return [], {}, f"harness exited {p.returncode}: {p.stderr[-2000:]}"
     lines = [l for l in p.stdout.split("\n") if l]
     ops = [l.split("\t") for l in lines]
-    inp = "\n".join(o[0] for o in ops) + "\n"
+    pre = preamble or []
+    inp = "\n".join(pre + [o[0] for o in ops]) + "\n"
     d = subprocess.run([driver_exe()], input=inp, stdout=subprocess.PIPE, stderr=subprocess.PIPE, text=True, timeout=7200)
     if d.returncode != 0:
         return [], {}, f"driver exited {d.returncode}: {d.stderr[-2000:]}"
     mod = d.stdout.split("\n")
     if mod and mod[-1] == "":
         mod.pop()
+    bad_pre = [(a, b) for a, b in zip(pre, mod[:len(pre)]) if b != "ok"]
+    if bad_pre:
+        return [], {}, "preamble line rejected by the model driver: " + bad_pre[0][0][:200] + " -> " + bad_pre[0][1]
+    mod = mod[len(pre):]
     if len(mod) != len(ops):
         return [], {}, f"driver answered {len(mod)} lines for {len(ops)} ops"
     res = []
@@ -289,12 +295,18 @@ def shrink_list(t, idx, sep, pred):
     return mk(items)
 
 
+PREAMBLE = []
+
+
 def eval_ops(ops):
     """Evaluate a list of op lines (setup first) through harness+driver; return results."""
     os.makedirs(BUILD, exist_ok=True)
     f = os.path.join(BUILD, f"replay_{os.getpid()}.ops")
+    # preamble lines (defenum / defpkg) are for the driver only; the harness ignores them
+    pre = [o for o in ops if o.split(" ")[0] in ("defenum", "defpkg")] or PREAMBLE
+    ops = [o for o in ops if o.split(" ")[0] not in ("defenum", "defpkg")]
     open(f, "w").write("\n".join(ops) + "\n")
-    res, _, err = run_group("", 0, 0, "quick", replay_file=f)
+    res, _, err = run_group("", 0, 0, "quick", replay_file=f, preamble=pre)
     os.remove(f)
     return res, err
 
@@ -386,7 +398,9 @@ def do_check(pid, cfg, tier, seed):
         ncorpus = len(results)
         for (group, sizes) in cfg["groups"]:
             n = sizes[tier] if lp["problems"] == [] else max(sizes[tier], sizes.get("search", sizes["thorough"]))
-            r, st, err = run_group(group, n, seed, tier if not lp["problems"] else "thorough")
+            pre = cfg["preamble"]() if cfg.get("preamble") else None
+            PREAMBLE[:] = pre or []
+            r, st, err = run_group(group, n, seed, tier if not lp["problems"] else "thorough", preamble=pre)
             if err:
                 corr_problems.append(f"group {group}: {err}")
             results += r
@@ -400,8 +414,9 @@ def do_check(pid, cfg, tier, seed):
             ast_lines = {l.strip() for l in open(mt) if l.strip()}
             seen_d = {r[0].split(" ")[1] for r in results if r[0].startswith("defmsg ")}
             refl = {r[0][len("defmsg "):] for r in results if r[0].startswith("defmsg ")}
+            ast_d = {l.split(" ")[0] for l in ast_lines}
             ast_sel = {l for l in ast_lines if l.split(" ")[0] in seen_d}
-            refl_sel = {l for l in refl if l.split(" ")[0] != "user"}
+            refl_sel = {l for l in refl if l.split(" ")[0] in ast_d}      # harness-defined dialects are not in the repository
             if ast_sel != refl_sel:
                 d = sorted(ast_sel ^ refl_sel)[:3]
                 corr_problems.append("extracted message tables differ from reflection: " + " || ".join(x[:200] for x in d))
@@ -419,7 +434,7 @@ def do_check(pid, cfg, tier, seed):
                 known_hits.setdefault(key, (op, impl, spec))
             else:
                 spec_diffs.append((op, impl, model, spec))
-    setup = setup_ops(results)
+    setup = setup_ops(results) + list(PREAMBLE)
     violation = None
     if spec_diffs:
         op, impl, model, spec = spec_diffs[0]
@@ -478,6 +493,10 @@ def do_check(pid, cfg, tier, seed):
 def needs_setup(setup_line, op):
     t = op.split(" ")
     st = setup_line.split(" ")
+    if st[0] == "defenum":
+        return t[0] == "etext" and st[1] == t[1]
+    if st[0] == "defpkg":
+        return t[0] == "dtype" and st[1] == t[1] and st[2] == t[2]
     if t[0] in ("msgenc", "msgdec"):
         return st[1] == t[1] and st[2] == t[2]
     return st[1] in t
